@@ -10,7 +10,8 @@ From stdpp Require Import gmap.
 From Coq Require Import ZArith List.
 From V Require Import Base.Res Sched.LedgerModel Sched.StmtModel Sched.GangModel Sched.CycleModel
                       Sched.LedgerInvP Sched.LedgerCodec Sched.CycleCodec
-                      Sched.QueueLemmasBase Sched.QueueLemmasReach Sched.QueueLemmas Sched.QueueLemmasEx.
+                      Sched.QueueLemmasBase Sched.QueueLemmasReach Sched.QueueLemmas Sched.QueueLemmasEx
+                      C03.CapacityModel C03.CapacityLemmas C03.ReclaimLaw C03.AliasModel.
 Import ListNotations.
 Open Scope Z_scope.
 
@@ -151,3 +152,162 @@ Example C03_ex_invariant_applies :
   let s' := w_sess (CycleModel.run 2 ex_w ops1) in amt (share_of s' 1) DCpu <= 16000.
 Proof. exact ex_invariant_applies. Qed.
 Print Assumptions C03_ex_invariant_applies.
+
+(* ================= Part B: the votes of the real plugins, from their per-queue records =================
+   Records (open, allocated, inqueue, elastic, deserved, realCapability, ancestors, #children) are
+   arbitrary: nothing about the forest is assumed. *)
+
+(* capacity AllocatableFn (flat: ancestors = []; hierarchical): Open, ready, leaf, and along the
+   queue and EVERY ancestor, in every requested dimension, allocated + reserved + request <=
+   realCapability *)
+Theorem C03_capacity_allocatable_bound : forall hier ready qs reserved q req,
+  cap_allocatable hier ready qs reserved q req = true ->
+  exists r, qs !! q = Some r /\ qr_open r = true /\ ready = true /\
+    (hier = true -> qr_children r = 0%nat) /\
+    forall a, a = q \/ a ∈ qr_ancestors r ->
+      exists ra c, qs !! a = Some ra /\ qr_realcap ra = Some c /\
+        forall d, requested req d ->
+          amt (qr_alloc ra) d + amt (reserved a) d + amt req d <= amt c d.
+Proof. exact capacity_allocatable_bound. Qed.
+Print Assumptions C03_capacity_allocatable_bound.
+
+(* capacity / proportion JobEnqueueableFn: Permit with minResources (and a realCapability) =>
+   minResources + allocated + inqueue - elastic <= realCapability along all ancestors *)
+Theorem C03_enqueue_vote_bound : forall hier ready qs q minres,
+  cap_enqueueable hier ready qs q minres = Permit ->
+  exists r, qs !! q = Some r /\ ready = true /\ qr_open r = true /\
+    (hier = true -> qr_children r = 0%nat) /\
+    forall m, minres = Some m -> qr_realcap r <> None ->
+      forall a, a = q \/ a ∈ qr_ancestors r ->
+        exists ra c, qs !! a = Some ra /\ qr_realcap ra = Some c /\
+          forall d, requested m d ->
+            amt m d + amt (qr_alloc ra) d + amt (qr_inqueue ra) d - amt (qr_elastic ra) d <= amt c d.
+Proof. exact enqueue_vote_bound. Qed.
+Print Assumptions C03_enqueue_vote_bound.
+
+Theorem C03_prop_enqueue_vote_bound : forall qs q minres,
+  prop_enqueueable qs q minres = Permit ->
+  exists r, qs !! q = Some r /\ qr_open r = true /\
+    forall m c, minres = Some m -> qr_realcap r = Some c ->
+      forall d, requested m d ->
+        amt m d + amt (qr_alloc r) d + amt (qr_inqueue r) d - amt (qr_elastic r) d <= amt c d.
+Proof. exact prop_enqueue_vote_bound. Qed.
+Print Assumptions C03_prop_enqueue_vote_bound.
+
+(* with hierarchy only leaf queues receive pods or admissions *)
+Theorem C03_only_leaf_receives : forall ready qs reserved q r req minres,
+  qs !! q = Some r -> (0 < qr_children r)%nat ->
+  cap_allocatable true ready qs reserved q req = false /\ cap_enqueueable true ready qs q minres = Reject.
+Proof. exact only_leaf_receives. Qed.
+Print Assumptions C03_only_leaf_receives.
+
+(* a queue that is not Open gets no positive vote from either plugin *)
+Theorem C03_closed_queue_receives_nothing : forall eps hier ready qs reserved q r,
+  qs !! q = Some r -> qr_open r = false ->
+  (forall req, cap_allocatable hier ready qs reserved q req = false) /\
+  (forall reqs, cap_preemptive eps ready qs q reqs = false) /\
+  (forall minres, cap_enqueueable hier ready qs q minres = Reject) /\
+  (forall reqs, prop_allocatable qs q reqs = false) /\
+  (forall minres, prop_enqueueable qs q minres = Reject).
+Proof. exact closed_queue_receives_nothing. Qed.
+Print Assumptions C03_closed_queue_receives_nothing.
+
+(* proportion AllocatableFn / PreemptiveFn: allocated + request <= deserved *)
+Theorem C03_proportion_allocatable_bound : forall qs q req,
+  prop_allocatable qs q [req] = true ->
+  exists r, qs !! q = Some r /\ qr_open r = true /\
+    forall d, requested req d -> amt (qr_alloc r) d + amt req d <= amt (qr_deserved r) d.
+Proof. exact proportion_allocatable_bound. Qed.
+Print Assumptions C03_proportion_allocatable_bound.
+
+Theorem C03_proportion_preemptive_bound : forall qs q reqs,
+  prop_allocatable qs q reqs = true ->
+  exists r, qs !! q = Some r /\ qr_open r = true /\
+    forall d, requested (total_req reqs) d -> amt (qr_alloc r) d + amt (total_req reqs) d <= amt (qr_deserved r) d.
+Proof. exact proportion_preemptive_bound. Qed.
+Print Assumptions C03_proportion_preemptive_bound.
+
+(* capacity PreemptiveFn (the only guard of the reclaim action before /repo bd1440f) bounds the
+   queue ITSELF only ... *)
+Theorem C03_cap_preemptive_bound : forall eps ready qs q reqs,
+  cap_preemptive eps ready qs q reqs = true ->
+  exists r c, qs !! q = Some r /\ ready = true /\ qr_open r = true /\ qr_realcap r = Some c /\
+    forall d, requested (total_req reqs) d -> amt (qr_alloc r) d + amt (total_req reqs) d <= amt c d.
+Proof. exact cap_preemptive_bound. Qed.
+Print Assumptions C03_cap_preemptive_bound.
+
+(* ... and does not imply the bound for the ancestors: the defect reproduced on the real reclaim
+   action (parent at its capability, task pipelined) and repaired by bd1440f, which makes reclaim
+   ask Allocatable after the tentative evictions *)
+Theorem C03_cap_preemptive_leaf_only_refuted :
+  exists eps qs q req,
+    cap_preemptive eps true qs q [req] = true /\
+    cap_allocatable true true qs (fun _ => empty_res) q req = false.
+Proof. exact cap_preemptive_leaf_only_refuted. Qed.
+Print Assumptions C03_cap_preemptive_leaf_only_refuted.
+
+(* proportion compares with deserved: with deserved > realCapability (guarantee > capability, a
+   queue the admission webhook rejects) the vote allows more than the capability *)
+Theorem C03_proportion_realcap_bound_refuted :
+  exists qs q req r c,
+    prop_allocatable qs q [req] = true /\ qs !! q = Some r /\ qr_realcap r = Some c /\
+    requested req DCpu /\ amt c DCpu < amt (qr_alloc r) DCpu + amt req DCpu.
+Proof. exact proportion_realcap_bound_refuted. Qed.
+Print Assumptions C03_proportion_realcap_bound_refuted.
+
+(* the executable law of the harness states the theorem's bound, and accepts the model's votes *)
+Theorem C03_bound_okb_spec : forall req lhs rhs,
+  bound_okb req lhs rhs = true <-> forall d, requested req d -> lhs d <= rhs d.
+Proof. exact bound_okb_spec. Qed.
+Print Assumptions C03_bound_okb_spec.
+
+Theorem C03_law_alloc_accepts_model : forall (hier ready : bool) qs reserved q req,
+  law_alloc_one (if hier then KHier else KFlat) qs reserved q req (cap_allocatable hier ready qs reserved q req) = true.
+Proof. exact law_alloc_accepts_model. Qed.
+Print Assumptions C03_law_alloc_accepts_model.
+
+(* ---- the stored hierarchy: Go slices over shared backing arrays (second repaired defect) ---- *)
+
+(* before /repo 6f3139f a vote for c1 rewrote the stored ancestors of g (child of c1's sibling) *)
+Theorem C03_ancestors_aliasing_refuted :
+  exists t q q', ancestors t q' = [qroot; q1; q2; q3; q4; q5; c2] /\
+                 ancestors (fst (vote_prefix t q)) q' = [qroot; q1; q2; q3; q4; q5; c1].
+Proof. exact ancestors_aliasing_refuted. Qed.
+Print Assumptions C03_ancestors_aliasing_refuted.
+
+(* the repaired list construction leaves every stored ancestor list as it was and walks
+   ancestors ++ [q] *)
+Theorem C03_vote_fixed_preserves : forall (t : table) (q : positive),
+  heap_wf (t_heap t) ->
+  (forall q' s, t_anc t !! q' = Some s -> is_Some (h_arrays (t_heap t) !! sl_arr s)) ->
+  forall q', ancestors (fst (vote_fixed t q)) q' = ancestors t q'.
+Proof. exact vote_fixed_preserves. Qed.
+Print Assumptions C03_vote_fixed_preserves.
+
+Theorem C03_vote_fixed_list : forall (t : table) (q : positive),
+  snd (vote_fixed t q) = ancestors t q ++ [q].
+Proof. exact vote_fixed_list. Qed.
+Print Assumptions C03_vote_fixed_list.
+
+(* the law of the reclaim regression stream says what it should *)
+Theorem C03_reclaim_law_spec : forall placed l, triples_ok placed l = true ->
+  forall i a h c, nth_error l (3 * i) = Some a -> nth_error l (3 * i + 1) = Some h ->
+                  nth_error l (3 * i + 2) = Some c ->
+  a = h /\ (placed = true -> h <= c).
+Proof. exact triples_ok_spec. Qed.
+Print Assumptions C03_reclaim_law_spec.
+
+(* ---- non-vacuity, Part B: root > gp (realCapability 4, holds 3) > p > leaf ---- *)
+Example C03_ex_grandparent_binds :
+  queue_fits ex_qs (fun _ => empty_res) (cpu_res 2) 4%positive = true /\
+  queue_fits ex_qs (fun _ => empty_res) (cpu_res 2) 3%positive = true /\
+  queue_fits ex_qs (fun _ => empty_res) (cpu_res 2) 2%positive = false /\
+  cap_allocatable true true ex_qs (fun _ => empty_res) 4%positive (cpu_res 2) = false.
+Proof. exact ex_grandparent_binds. Qed.
+
+Example C03_ex_accepted :
+  cap_allocatable true true ex_qs (fun _ => empty_res) 4%positive (cpu_res 1) = true /\
+  cap_enqueueable true true ex_qs 4%positive (Some (cpu_res 1)) = Permit /\
+  cap_enqueueable true true ex_qs 4%positive (Some (cpu_res 2)) = Reject /\
+  cap_allocatable true true ex_qs (fun _ => empty_res) 3%positive (cpu_res 1) = false.
+Proof. exact ex_accepted. Qed.
